@@ -71,6 +71,26 @@ theorem quotient_mod_f_spec (n d : Int) (hd : d ≠ 0) :
 
 example : quotientMod (-7) 2 = (-3, -1) ∧ quotientModF (-7) 2 = (-4, 1) ∧ quotientModF 7 (-2) = (-4, -1) := by decide
 
+/-! ## gcd, lcm -/
+
+/-- `gcd`: non-negative, divides both arguments, and every common divisor divides it (so it is *the* gcd;
+`gcd 0 0 = 0`) -/
+theorem gcd_spec (a b : Int) :
+    0 ≤ NTheory.gcd a b ∧ NTheory.gcd a b ∣ a ∧ NTheory.gcd a b ∣ b ∧
+      ∀ d : Int, d ∣ a → d ∣ b → d ∣ NTheory.gcd a b := by
+  unfold NTheory.gcd
+  exact ⟨Int.natCast_nonneg _, Int.gcd_dvd_left a b, Int.gcd_dvd_right a b, fun d h1 h2 => Int.dvd_coe_gcd h1 h2⟩
+
+/-- `lcm`: non-negative, a common multiple, divides every common multiple, and `gcd * lcm = |a * b|` -/
+theorem lcm_spec (a b : Int) :
+    0 ≤ NTheory.lcm a b ∧ a ∣ NTheory.lcm a b ∧ b ∣ NTheory.lcm a b ∧
+      (∀ m : Int, a ∣ m → b ∣ m → NTheory.lcm a b ∣ m) ∧
+      NTheory.gcd a b * NTheory.lcm a b = ((a * b).natAbs : Int) := by
+  unfold NTheory.lcm NTheory.gcd
+  refine ⟨Int.natCast_nonneg _, Int.dvd_lcm_left a b, Int.dvd_lcm_right a b,
+    fun m h1 h2 => Int.coe_lcm_dvd h1 h2, ?_⟩
+  rw [← Int.natCast_mul, Int.gcd_mul_lcm, Int.natAbs_mul]
+
 /-! ## gcd_ext -/
 
 /-- `gcd_ext`: the first component is the non-negative gcd, on every branch of the normalisation -/
